@@ -69,18 +69,21 @@ def mk_array(F, dtype, values, shape=None):
 # re-formatted to the requested format by the named route before the symbolic code is written.  A well-formed object must behave the
 # same whatever its past (stale cached attributes are exactly what this is after).
 AGE = None
-AGE_ROUTES = ('resize', 'resize_dtype', 'resize_nint', 'like', 'resize_signed_then_sizes')
+AGE_ROUTES = ('resize', 'resize_dtype', 'resize_nint', 'like', 'resize_signed_then_sizes', 'resize_signed_only')
 
 
 def _aged(F, signed, n_word, n_frac, shape, kw):
     k = size_of(shape) if shape else 1
     first = nested([1] * k, shape) if shape else 1
-    s0 = (not signed) if (AGE == 'resize_signed_then_sizes' and n_word > 1) else signed
-    x = F.Fxp(first, s0, n_word + 2, n_frac + 1, **kw)
+    s0 = (not signed) if (AGE in ('resize_signed_then_sizes', 'resize_signed_only') and n_word > 1) else signed
+    if AGE == 'resize_signed_only':
+        x = F.Fxp(first, s0, n_word, n_frac, **kw)           # same sizes, other signedness: only the sign is changed later
+    else:
+        x = F.Fxp(first, s0, n_word + 2, n_frac + 1, **kw)
     # a first life: values, reads, operators
     x.set_val(nested([0] * k, shape) if shape else 0)
     (~x), (x + x), (x >> 1), x.bin(), x.get_val(), (x == x)
-    if n_word + 2 < 64:
+    if n_word + 2 < 64 and n_frac + 1 < 60:
         x.astype(int)           # (on a 64+ bit scalar with n_frac != 0 astype(int) raises AttributeError: observed, outside the properties)
     x.set_val(nested([1] * k, shape) if shape else 1)
     if AGE == 'resize':
@@ -89,6 +92,8 @@ def _aged(F, signed, n_word, n_frac, shape, kw):
         x.resize(dtype=fmt_str(signed, n_word, n_frac))
     elif AGE == 'resize_nint':
         x.resize(n_word=n_word, n_int=n_word - n_frac - int(signed))
+    elif AGE == 'resize_signed_only':
+        x.resize(signed=signed)
     elif AGE == 'resize_signed_then_sizes':
         x.resize(signed=signed)
         x.resize(n_word=n_word)
